@@ -26,7 +26,7 @@ LEVEL_TEXT = ('Every labelled graph on <=4 (quick) / <=5 (thorough, plus all 156
 LEVEL_NOTE = ('Small-scope hypothesis beyond 5-6 attributes; set-iteration order is covered for 4 hash seeds only; the int '
               '(randomised) mode is run with a seeded numpy generator but every order it can produce is also enumerated explicitly.')
 ASSUMPTIONS = ['networkx is trusted only inside the code under test; the oracle uses its own union-find / set logic',
-               'attribute sizes do not influence validity, two size patterns are used because they steer the greedy order']
+               'three size patterns (generic; first attribute of size 1; last attribute of size 1) because sizes steer the greedy order and the tie-breaking of the spanning tree']
 
 
 def hashseeds(tier):
@@ -198,7 +198,7 @@ def check_tree(acc, case, attrs, sizes, cliques, order, seed):
 
 def run_case(acc, k, edges, pres, sizes_name, order, seed):
     attrs = S.ATTRS[:k]
-    sizes = (S.SIZES_MAIN if sizes_name == 'main' else S.SIZES_ONE)[:k]
+    sizes = S.sizes_for(sizes_name, k)
     cliques = S.present(attrs, edges, pres)
     case = {'k': k, 'edges': edges, 'pres': pres, 'sizes': sizes_name, 'order': order, 'seed': seed}
     acc.case({'c': cliques, 'o': order, 's': sizes_name}, nontrivial=len(edges) > 0)
@@ -228,8 +228,8 @@ def run_job(job):
         for pres in press:
             if pres != 'edges' and not edges and pres != 'singletons' and pres != 'nested':
                 continue
-            for si, sizes_name in enumerate(['main', 'one']):
-                if sizes_name == 'one' and (pres not in ('edges', 'maximal') or k >= 6):
+            for si, sizes_name in enumerate(['main', 'one', 'last1']):
+                if sizes_name != 'main' and (pres not in ('edges', 'maximal') or k >= 6):
                     continue
                 for order in orders_for(attrs, job['orders']):
                     run_case(acc, k, edges, pres, sizes_name, order, seed)
